@@ -220,6 +220,9 @@ package placement
 //@   ensures [accepted-means-every-write-succeeded] result == nil ==> ruleWriteFailed[0] == old(ruleWriteFailed[0])
 //@   loop 1 invariant ruleWriteFailed[0] == old(ruleWriteFailed[0])
 //@   loop 2 invariant ruleWriteFailed[0] == old(ruleWriteFailed[0])
+//@   loop 3 invariant kvval == old(kvval) && kvhas == old(kvhas) && ruleWriteFailed[0] == old(ruleWriteFailed[0]) && (forall id string :: {visited(p.groups, id)} visited(p.groups, id) ==> cleanGroupId(id))
+//@   at SaveRule 1 assert [no-write-before-every-group-id-of-the-update-was-accepted] forall id string :: {in(p.groups, id)} in(p.groups, id) ==> cleanGroupId(id)
+//@   at DeleteRule 1 assert [no-write-before-every-group-id-of-the-update-was-accepted] forall id string :: {in(p.groups, id)} in(p.groups, id) ==> cleanGroupId(id)
 //@   option event savePatch
 //@   option assumeframe
 //@   modifies ghost kvhas, ghost kvval, ghost ruleWriteFailed
